@@ -35,7 +35,7 @@ StepOp(e) ==
       [] e.op = "Cancel" -> Clean(e.obs) /\ Cancel(e.r, e.q, e.obs.m)
       [] e.op = "AsReactions" /\ e.which \in {"both", "none"} ->
              AsReactionsRefused(e.r, e.which) /\ e.obs.raised /\ e.obs.exc = "ValueError"
-      [] e.op = "AsReactions" -> /\ AsReactions(e.r, e.which)
+      [] e.op = "AsReactions" -> /\ AsReactions(e.r, e.which, e.c0)
                                  /\ Clean(e.obs)
                                  /\ ObsEq(e.obs.fw, out'.rx.fw) /\ ObsEq(e.obs.bw, out'.rx.bw)
       [] OTHER -> FALSE
@@ -77,7 +77,7 @@ Clause ==
     IF pos > Len(Traces[tid]) THEN "model:no-end-event"
     ELSE LET e == Ev IN
       IF e.op = "Load" THEN
-          (IF ~(e.r \in Regs /\ IsStoich(e.reac) /\ IsStoich(e.prod) /\ e.b \notin RateNames
+          (IF ~(e.r \in Regs /\ IsStoich(e.reac) /\ IsStoich(e.prod) /\ e.b \notin ReservedNames
                 /\ HasEffect([reac |-> e.reac, prod |-> e.prod])) THEN "model:Load"
            ELSE ObsClause(e.obs, ExpectedReg(e)))
       ELSE IF e.op \in {"Scale", "Neg"} THEN
@@ -105,12 +105,12 @@ Clause ==
            ELSE IF e.obs.m \in CancelSet(regs[e.r], regs[e.q]) THEN "operand-changed"
            ELSE "cancel-multiplier")
       ELSE IF e.op = "AsReactions" THEN
-          (IF ~IsReg(e.r) \/ e.which \notin RateNames \cup {"both", "none"} THEN "model:AsReactions"
+          (IF ~IsReg(e.r) \/ e.which \notin RateNames \cup {"both", "none"} \/ e.c0 \notin {"one", "c0"} THEN "model:AsReactions"
            ELSE IF e.which \in {"both", "none"} THEN
                 (IF e.obs.raised THEN "refused-with:" \o e.obs.exc ELSE "not-refused")
            ELSE IF e.obs.raised THEN "raised:" \o e.obs.exc
            ELSE IF e.obs.bad # "" THEN "bad:" \o e.obs.bad
-           ELSE LET x == AsRx(regs[e.r], e.which)
+           ELSE LET x == AsRx(regs[e.r], e.which, e.c0)
                     c1 == ObsClause(e.obs.fw, x.fw)
                     c2 == ObsClause(e.obs.bw, x.bw)
                 IN IF c1 # "ok" THEN "forward-" \o c1 ELSE IF c2 # "ok" THEN "backward-" \o c2 ELSE "operand-changed")
